@@ -1,0 +1,5 @@
+//go:build !verif
+
+package proxycore
+
+func vhook(string, ...interface{}) {}
